@@ -124,16 +124,17 @@ Qed.
 
 (* operands: a tree, or Unsafe(tree) *)
 Definition arel (v1 v2 : value) : Prop :=
-  vrel v1 v2 \/ exists a b, v1 = VUnsafe a /\ v2 = VUnsafe b /\ vrel a b.
+  vrel v1 v2 \/ (exists a b, v1 = VUnsafe a /\ v2 = VUnsafe b /\ vrel a b)
+  \/ (exists a m, v1 = VSafe a m /\ v2 = VSafe a m /\ leafish a = true).
 Lemma arel_nil_iff v1 v2 : arel v1 v2 -> (v1 = VNil <-> v2 = VNil).
 Proof.
-  intros [H | (a & b & -> & -> & _)]; [|split; discriminate].
+  intros [H | [(a & b & -> & -> & _) | (a & m & -> & -> & _)]]; [|split; discriminate ..].
   inversion H; subst; try (split; discriminate).
   destruct H0 as (_ & _ & [-> | (_ & _ & Hm)]); [tauto|]. destruct v1, v2; try contradiction; split; discriminate.
 Qed.
 Lemma arel_names v1 v2 : arel v1 v2 -> type_name v1 = type_name v2 /\ is_string_kind v1 = is_string_kind v2.
 Proof.
-  intros [H | (a & b & -> & -> & _)]; [|split; reflexivity].
+  intros [H | [(a & b & -> & -> & _) | (a & m & -> & -> & _)]]; [|split; reflexivity ..].
   destruct (vrel_tinfo _ _ H) as (_ & E1 & _ & _ & _ & E2 & _). split; assumption.
 Qed.
 
@@ -1497,6 +1498,18 @@ Section Rec.
     eapply JS0_weaken; [|now apply JprintArg_body]. intros ? ? Hx Ho. destruct (Hx Ho).
   Qed.
 
+  (* Safe(x) for a leaf x: the same value on both sides, printed under the safe override *)
+  Lemma JprintArg_safe a m verb : leafish a = true ->
+    JS0 (HS (VSafe a m = VSafe a m /\ lfs (VSafe a m) = true)) any (printArg rec env (VSafe a m) verb) (printArg rec env (VSafe a m) verb).
+  Proof.
+    intros La.
+    change (printArg rec env (VSafe a m) verb) with (bracket start_safe_ovr (printArg_body rec env a verb)).
+    eapply JS0_weaken; [|apply Jbracket_safe].
+    - intros ? ? _. exact Logic.I.
+    - apply kovr_keeps, keeps_printArg_body, Hkeeps.
+    - eapply JS0_weaken; [|apply (JprintArg_body a a verb (vr_leaf _ _ (lrel_refl a La)))]. intros ? ? _ _. split; [reflexivity | now apply lfs_leaf].
+  Qed.
+
   (* one step of the evaluator on related calls *)
   Lemma Jstep c1 c2 : crel c1 c2 ->
     JS (HS (cP c1 c2)) eq
@@ -1514,7 +1527,8 @@ Section Rec.
         | _ => ret RU end).
   Proof.
     intros Hc. destruct c1, c2; cbn [crel] in Hc; try contradiction; cbn [cP].
-    - destruct Hc as [<- [Hl | (a & b & -> & -> & Hl)]]; (eapply JS_bind; [|intros; now apply J_ret]); apply JS0_JS; [now apply JprintArg | now apply JprintArg_unsafe].
+    - destruct Hc as [<- [Hl | [(a & b & -> & -> & Hl) | (a & m & -> & -> & Hl)]]]; (eapply JS_bind; [|intros; now apply J_ret]); apply JS0_JS;
+        [now apply JprintArg | now apply JprintArg_unsafe | now apply JprintArg_safe].
     - destruct Hc as (<- & <- & <- & Hl). eapply JS_bind; [|intros; now apply J_ret]. now apply JprintValue.
     - subst. apply J_JS. eapply J_bind; [apply JbadVerb | intros; now apply J_ret].
     - subst. apply J_JS. eapply J_bind; [apply JhandleMethods | intros b ? <-; now apply J_ret].
